@@ -22,7 +22,7 @@ RULE = ("dicts of 1-6 named games drawn from pools of solvable (G-ACY/G-CYC/G-DE
         "distinct = (pool hash, order).")
 FLOOR = 200
 REQUIRED = ["run.calls"]
-ASSUMPTIONS = ["names use letters, digits, underscores and never end in _no_prune (x and x_no_prune collide by construction of the key scheme)",
+ASSUMPTIONS = ["names are arbitrary strings (letters, digits, underscores, braces, percent signs, blanks, the empty name) that never end in _no_prune (x and x_no_prune collide by construction of the key scheme)",
                "total_time is excluded from the comparison"]
 TIMEOUT = 1800
 FIELDS = ["final_strategies", "reachability_strategies", "rewards", "probabilities", "n_iterations_reach", "n_iterations_rew",
@@ -34,7 +34,9 @@ def make_pool(rng, size):
     pool = []
     # names that are prefixes of each other or end in characters of "_no_prune" are legal and hostile to string surgery on keys
     names = ["g%d" % i for i in range(12)] + ["robot_1_a", "Game_B2", "x", "a_b_c_9", "broken", "no_route", "gam", "game_one",
-                                               "open", "prune_no", "e", "n_o", "game", "game_o", "run", "u_p", "solo_no_prune", "w_no_prune"]
+                                               "open", "prune_no", "e", "n_o", "game", "game_o", "run", "u_p", "solo_no_prune", "w_no_prune",
+                                               # legal keys that are hostile to text templates and trimming
+                                               "G_{5.4}", "{}", "{0}", "pad ", "", "100%s", "a : b", "chain_{n_states}"]
     rng.shuffle(names)
     for i in range(size):
         r = rng.random()
